@@ -45,6 +45,10 @@ func (s *swamp) PatchExpired(howMany int32, ops []msgpackpatch.Op, condition *ms
 	// currentMatching=N under the beacon mu and both claim up to
 	// (MaxMatching - N), breaching the cap once their per-treasure
 	// mutations (which happen AFTER releasing beacon mu) complete.
+	// One claim at a time per swamp: see claimMu.
+	s.claimMu.Lock()
+	defer s.claimMu.Unlock()
+
 	if capPredicate != nil {
 		s.capMu.Lock()
 		defer s.capMu.Unlock()
